@@ -2219,7 +2219,14 @@ func builtinAppend(env *LEnv, args *LVal) *LVal {
 		// the result is unsealed storage this call owns, so chaining extends
 		// it as before.  Exactly one allocation on each arm -- the sealed
 		// copy is sized for the append rather than clamped and regrown.
-		if seq.sealed {
+		//
+		// The same input shape aliases an UNSEALED source too: with no
+		// values the append returns seq's own slice, so the "new" vector
+		// shares every element slot with seq and an in-place permutation
+		// of one (stable-sort) reorders the other.  append is documented as
+		// non-mutating and is not a view producer, so that case is copied
+		// as well.
+		if seq.sealed || len(vals) == 0 {
 			fresh := make([]*LVal, len(cells), len(cells)+len(vals))
 			copy(fresh, cells)
 			//elps:mutates appends into `fresh`, which this function allocated two lines above with capacity for exactly this append; the sealed input is only read
